@@ -61,12 +61,17 @@ enum Fault {
 }
 
 impl Fault {
+    /// `prefix-only`: the file is left holding a well-formed prefix of what it should hold (rolled
+    /// back to an earlier version, or cut exactly on a line boundary incl. to nothing); `torn`: cut
+    /// inside a line / record
     fn class(&self) -> String {
         match self {
             Fault::Delete(f) => format!("delete:{f}"),
-            Fault::Truncate(f, _) => format!("truncate:{f}"),
+            Fault::Truncate(f, pm) if *pm >= 4000 => format!("torn:{f}"),
+            Fault::Truncate(f, pm) if *pm >= 2000 => format!("prefix-only:{f}"),
+            Fault::Truncate(f, _) => format!("torn:{f}"),
             Fault::Garbage(f) => format!("garbage:{f}"),
-            Fault::Rollback(f, _) => format!("rollback:{f}"),
+            Fault::Rollback(f, _) => format!("prefix-only:{f}"),
         }
     }
 }
@@ -82,7 +87,28 @@ fn apply_fault(data_dir: &Path, thread: &str, f: &Fault, versions: &Versions) {
         }
         Fault::Truncate(k, pm) => {
             if let Ok(b) = std::fs::read(path(k)) {
-                let n = (b.len() as u64 * pm / 1000) as usize;
+                let n = if *pm >= 4000 {
+                    32 + (*pm - 4000) as usize // torn: inside a record of the ordinal index
+                } else if *pm >= 3000 {
+                    32 + 24 * (*pm - 3000) as usize // prefix-only: after that many records
+                } else if *pm >= 2000 {
+                    // cut exactly after (pm - 2000) lines
+                    let want = (*pm - 2000) as usize;
+                    let mut seen = 0;
+                    let mut pos = 0;
+                    for (i, c) in b.iter().enumerate() {
+                        if seen == want {
+                            break;
+                        }
+                        if *c == b'\n' {
+                            seen += 1;
+                            pos = i + 1;
+                        }
+                    }
+                    pos
+                } else {
+                    (b.len() as u64 * pm / 1000) as usize
+                };
                 let _ = std::fs::write(path(k), &b[..n.min(b.len())]);
             }
         }
@@ -366,7 +392,36 @@ fn one_case(rep: &mut Report, model: &mut Model, rng: &mut Rng, case_no: u64, si
             let k = if !sidecars.is_empty() && rng.chance(1, 2) { rng.pick(&sidecars).clone() } else { rng.pick(&kinds).clone() };
             fs.push(match rng.below(4) {
                 0 => Fault::Delete(k),
-                1 => Fault::Truncate(k, rng.below(1001)),
+                1 => {
+                    // a cut inside a line (torn) or exactly on a line boundary, incl. an empty file (prefix-only)
+                    let path = data_dir.join("continuity_streams").join(format!("{thread}.{k}"));
+                    let bytes = std::fs::read(&path).unwrap_or_default();
+                    if k.ends_with("msgord.v1.bin") {
+                        // binary ordinal index: 32-byte header + 24-byte records; a cut on a record boundary
+                        // leaves a well-formed prefix, any other cut a torn record
+                        let records = (bytes.len().saturating_sub(32) / 24) as u64;
+                        if rng.chance(1, 2) || records == 0 {
+                            Fault::Truncate(k, 3000 + rng.below(records + 1))
+                        } else {
+                            Fault::Truncate(k, 4000 + rng.below(records) * 24 + rng.range(1, 23))
+                        }
+                    } else if rng.chance(1, 3) || bytes.is_empty() {
+                        let lines = bytes.iter().filter(|c| **c == b'\n').count() as u64;
+                        Fault::Truncate(k, 2000 + rng.below(lines + 1))
+                    } else {
+                        // make sure the per-mille cut does not land on a boundary
+                        let mut pm = rng.below(1000);
+                        for _ in 0..20 {
+                            let n = (bytes.len() as u64 * pm / 1000) as usize;
+                            if n > 0 && n < bytes.len() && bytes[n - 1] != b'\n' {
+                                break;
+                            }
+                            pm = rng.below(1000);
+                        }
+                        let n = (bytes.len() as u64 * pm / 1000) as usize;
+                        if n == 0 || n >= bytes.len() || bytes[n - 1] == b'\n' { Fault::Truncate(k, 2000) } else { Fault::Truncate(k, pm) }
+                    }
+                }
                 2 => Fault::Garbage(k),
                 _ if !versions.is_empty() => Fault::Rollback(k, rng.below(versions.len() as u64) as usize),
                 _ => Fault::Delete(k),
@@ -403,7 +458,7 @@ fn one_case(rep: &mut Report, model: &mut Model, rng: &mut Rng, case_no: u64, si
         copy_dir(&base, &dir);
         for f in faults {
             apply_fault(&dir, &thread, f, &versions);
-            rep.count(&format!("fault_{}", f.class().split(':').next().unwrap()));
+            rep.count(&format!("fault_{}", f.class().split(':').next().unwrap().replace('-', "_")));
         }
         let append_seed = rng.next();
         let do_appends = |d: &Path| {
